@@ -540,6 +540,12 @@ func (u *Unit) applyContract(st *State, ct *Contract, pk, key string, _ any, sig
 				u.unsupported(pos, "contract of %s: writes %s: no such parameter", key, w)
 			}
 			old := args[idx]
+			if isInterface(old.Ty) && callArgs != nil && idx < len(callArgs) {
+				// a slice passed as `any` (sort.Slice): use the slice itself
+				if _, ok := u.typeOf(callArgs[idx]).Underlying().(*types.Slice); ok {
+					old = u.eval(st, callArgs[idx])
+				}
+			}
 			if _, ok := old.Ty.Underlying().(*types.Slice); !ok {
 				u.unsupported(pos, "contract of %s: writes %s: not a slice", key, w)
 			}
